@@ -114,6 +114,8 @@ impl Engine for Selection {
     }
     fn generate(&self, seed: u64, prop: &str) -> RunRecord {
         let cmds = gen(seed);
+        crate::abort::tee_cfg("E3-selection", "pools", &serde_json::to_value(&SCfg {}).unwrap());
+        crate::abort::tee_cmds(&cmds);
         let (outcome, _) = execute(&cmds, false, prop);
         RunRecord { engine: "E3-selection", profile: "pools".into(), cfg: serde_json::to_value(&SCfg {}).unwrap(), cmds: cmds.iter().map(|c| serde_json::to_value(c).unwrap()).collect(), outcome }
     }
